@@ -7,8 +7,8 @@ import ops
 import numpy as np
 
 ID = 'C13'
-N_QUICK = 150
-N_THOROUGH = 1500
+N_QUICK = 250
+N_THOROUGH = 2500
 HEADER = ('From DA Require Import Prelude NDArray Array PyRT.\n'
           'From DA.Model Require Import Value Reshape Indexing Align Dataset.\nOpen Scope string_scope.\n')
 RUNNER = 'hist_case_ok'
